@@ -318,3 +318,75 @@ def r14_5_write_coverage(ctx, prog, rule="R14.5"):
         ctx.ob(rule, "coverage:%s" % b.path, not bad, "; ".join(sorted(set(bad))[:3]) or summary, b.where(),
                replay=None if not bad else {"function": b.path, "problems": sorted(set(bad))})
     ctx.floor(rule, "encoder impls examined", n_impl, 45)
+
+
+def size_sets(prog):
+    """-> ({encoder path: set of Ok sizes (ints or 'sym')}, same for decoders) for the attribute-value codecs"""
+    impls = [b for b in prog.bodies.values() if b.crate == "stun_rs" and b.kind == "AssocFn" and
+             (prover.ENC_CTX_RX.search(b.path) or prover.enc_slice_arg(b.path) is not None)]
+    impls += [b for b in prog.bodies.values() if prover.XOR_ENC_RX.search(b.path)]
+    enc = {}
+    raw = {}
+    for b in impls:
+        if b.path == DISPATCH:
+            continue
+        paths, info = C.explore_fn(prog, b.path, "x", STEP, memo_shared=True)
+        vals = set()
+        for pa in paths:
+            r = C.expr_of(pa, pa.ret)
+            if isinstance(r, tuple) and r[0] == "Result::Err":
+                continue
+            if isinstance(r, tuple) and r[0] == "Result::Ok":
+                vals.add(r[1] if isinstance(r[1], int) else "sym")
+            else:
+                # forwarded result of a nested encoder
+                fw = [e[1] for e in pa.calls if pa.ret == "top:%s" % e[4]]
+                vals.add(("fwd", fw[0]) if fw else "sym")
+        raw[b.path] = vals
+
+    def resolve(path, depth=0):
+        out = set()
+        for v in raw.get(path, {"sym"}):
+            if isinstance(v, tuple) and v[0] == "fwd":
+                tgt = v[1]
+                cands = [p for p in raw if p == tgt or re.sub(r"::<.*>$", "", tgt) == p]
+                if cands and depth < 4:
+                    out |= resolve(cands[0], depth + 1)
+                else:
+                    out.add("sym")
+            else:
+                out.add(v)
+        return out
+    for p_ in raw:
+        enc[p_] = resolve(p_)
+    dec = {}
+    for b in prog.bodies.values():
+        if b.crate == "stun_rs" and re.search(r" as stun_rs::attributes::DecodeAttributeValue>::decode$", b.path):
+            paths, info = C.explore_fn(prog, b.path, "x", STEP, memo_shared=True)
+            vals = set()
+            for pa in paths:
+                r = C.expr_of(pa, pa.ret)
+                if isinstance(r, tuple) and r[0] == "Result::Ok":
+                    v = r[1]
+                    vals.add(v[2] if isinstance(v, tuple) and v[0] == "tuple" and len(v) == 3 and isinstance(v[2], int) else "sym")
+                elif not (isinstance(r, tuple) and r[0] == "Result::Err"):
+                    vals.add("sym")
+            dec[b.path] = vals
+    return enc, dec
+
+
+def r1_11_size_agreement(ctx, prog, rule="R1.11"):
+    ctx.rule(rule, "sibling agreement on sizes: for every attribute kind whose encoder and decoder both have constant sizes, the "
+                   "set of sizes the encoder returns equals the set of sizes the decoder consumes (4 for CHANNEL-NUMBER, 8 / 20 "
+                   "for address attributes, 20 / 32 for the integrity attributes, ...)")
+    enc, dec = size_sets(prog)
+    n = 0
+    for dp, dv in sorted(dec.items()):
+        ty = re.match(r"<(.*) as stun_rs::attributes::DecodeAttributeValue>::decode$", dp).group(1)
+        ep = "<%s as stun_rs::attributes::EncodeAttributeValue>::encode" % ty
+        ev = enc.get(ep)
+        if ev is None or "sym" in dv or "sym" in ev or not dv or not ev:
+            continue
+        n += 1
+        ctx.ob(rule, "sizes:%s" % ty.split("::")[-1], dv == ev, "encoder returns %s, decoder consumes %s" % (sorted(ev), sorted(dv)), prog.body(dp).where())
+    ctx.floor(rule, "attribute kinds with constant sizes on both sides", n, 15)
